@@ -81,6 +81,10 @@ def make_scenario(spec, seed, idx):
                          'dotdot': r.random() < 0.3})
     for _ in range(3):
         variants.append({'via': 'api', 'cwd': r.choice(CWDS), 'main_abs': r.random() < 0.5, 'inc_abs': r.random() < 0.5, 'compress': r.random() < 0.5, 'dotdot': True})
+    if tree['inc_dirs']:
+        # the same search path given redundantly: every -i directory twice (cannot change what is found)
+        for via in ('api', 'cli'):
+            variants.append({'via': via, 'cwd': r.choice(CWDS), 'main_abs': True, 'inc_abs': r.random() < 0.5, 'compress': r.random() < 0.5, 'inc_twice': True})
     return {'tree': tree, 'variants': variants}
 
 
@@ -97,6 +101,8 @@ def outcome_key(out):
 def run_variant(files, tree, v, log):
     dirs = list(tree['dirs']) + [v['cwd']]
     inc = [spell(d, v['cwd'], v['inc_abs']) for d in tree['inc_dirs']]
+    if v.get('inc_twice'):
+        inc = inc + [spell(d, v['cwd'], not v['inc_abs']) for d in tree['inc_dirs']]
     mpath = tree['main']
     if v.get('dotdot'):
         # the same file reached through a directory and back (every component exists)
